@@ -249,3 +249,8 @@ mod tests {
         assert_eq!(coalesced_length, expected);
     }
 }
+
+// verification hook (guard: cfg(kani), set only by the Kani compiler): harnesses live in /verif/kani
+#[cfg(kani)]
+#[path = "/verif/kani/blob.rs"]
+mod verif_kani;
